@@ -29,7 +29,9 @@ def configs(tier):
 
     out = []
     for n_alt in ((1, 2) if tier == "quick" else (1, 2, 3)):
-        out.append(dict(group="summary", n_alt=n_alt))
+        for g0 in range(-1, n_alt + 1):
+            for g1 in range(-1, n_alt + 1):
+                out.append(dict(group="summary", n_alt=n_alt, first=[g0, g1]))
     for name in (c13.QUICK if tier == "quick" else [s for s in c13.SCENARIOS if s != "dupes"]):
         for r in range(len(REPORTS)):
             out.append(dict(group="asm-line", scenario=name, report=r))
@@ -96,6 +98,8 @@ def _run_summary(c, col):
                 gz[s] = [z3.IntVal(int(x)) for x in gts[s]]
                 continue
             vs = [E.fresh_int(ctx, "%s_%d" % (s, i), -1, n_alt) for i in range(P)]
+            if s == "s0" and c.get("first") is not None:
+                ctx.assume(z3.And(vs[0] == c["first"][0], vs[1] == c["first"][1]))  # configuration split (parallelism only)
             gz[s] = vs
             gts[s] = E.sarray([E.SymInt(v) for v in vs], rnp.int64)
         acp = {s: E.real_array([E.fresh_real(ctx, "acp_%s_%d" % (s, a), 0, None, lo_strict=False) for a in range(nA)]) for s in ploidy}
